@@ -843,7 +843,7 @@ fn oset_lists<T: Elem>(cx: &mut Ctx, universe: &[T], max_len: usize) {
   let stride = (1000 / cx.scale.max(1)).max(1).min(16);
   let mut lists: Vec<Vec<T>> = Vec::new();
   for_each_list(universe, max_len, |i, l| {
-    if args.mine(i) && (i / args.nshards.max(1)) % stride == 0 {
+    if args.mine(i) && (l.len() <= 2 || (i / args.nshards.max(1)) % stride == 0) {
       lists.push(l.to_vec());
     }
   });
@@ -1248,7 +1248,7 @@ fn oos_lists<T: MapSuite>(cx: &mut Ctx, universe: &[T], max_len: usize, append_d
   let stride = (1000 / cx.scale.max(1)).max(1).min(16);
   let mut lists: Vec<Vec<T>> = Vec::new();
   for_each_list(universe, max_len, |i, l| {
-    if args.mine(i) && (i / args.nshards.max(1)) % stride == 0 {
+    if args.mine(i) && (l.len() <= 2 || (i / args.nshards.max(1)) % stride == 0) {
       lists.push(l.to_vec());
     }
   });
@@ -1433,7 +1433,7 @@ fn oom_lists<T: Elem>(cx: &mut Ctx, universe: &[T], max_len: usize, push_depth: 
   let stride = (1000 / cx.scale.max(1)).max(1).min(16);
   let mut lists: Vec<Vec<T>> = Vec::new();
   for_each_list(universe, max_len, |i, l| {
-    if args.mine(i) && (i / args.nshards.max(1)) % stride == 0 {
+    if args.mine(i) && (l.len() <= 2 || (i / args.nshards.max(1)) % stride == 0) {
       lists.push(l.to_vec());
     }
   });
